@@ -438,4 +438,276 @@ theorem matched_perm {β : Type} (pm pmInv : Nat → Option Nat) (hpm : ∀ i l,
   rw [h1, h2]
   exact (pairs_perm pm pmInv hpm lhs rhs hl hr).filterMap g
 
+/-! ### one step of the engine's operator against the reference, given what the join tables are -/
+
+theorem filter_by_id (xs : IdVec V) (hids : (xs.map (·.1)).Pairwise (· ≠ ·)) (i : Nat) :
+    xs.filter (fun z => z.1 == i) = (xs.find? (fun z => z.1 == i)).toList := by
+  induction xs with
+  | nil => rfl
+  | cons a as ih =>
+    simp only [List.map_cons, List.pairwise_cons] at hids
+    by_cases ha : a.1 = i
+    · have hb : (a.1 == i) = true := by simpa using ha
+      rw [List.filter_cons, List.find?_cons, hb]
+      simp only [if_true, Option.toList_some]
+      congr 1
+      rw [List.filter_eq_nil_iff]
+      intro z hz
+      have := hids.1 z.1 (List.mem_map_of_mem hz)
+      simp only [beq_iff_eq]
+      intro hzi
+      exact this (by rw [ha, hzi])
+    · have hb : (a.1 == i) = false := by simpa using ha
+      rw [List.filter_cons, List.find?_cons, hb]
+      exact ih hids.2
+
+/-- the facts about the join tables that the step needs: `pmInv` sends a right-hand series to the
+left-hand series with the same match key (at most one each way) -/
+structure JTables (j : Join) (H : List Labels) (outL : Labels → Labels) (pmInv : Nat → Option Nat) : Prop where
+  hi_inj : ∀ i i' o, j.highIdx.getD i none = some o → j.highIdx.getD i' none = some o → i = i'
+  hi_lt : ∀ i o, j.highIdx.getD i none = some o → o < j.outputs.length
+  out_lab : ∀ i o, j.highIdx.getD i none = some o → j.outputs.getD o [] = outL (H.getD i [])
+  low_some : ∀ l i, pmInv l = some i → ∃ o, j.highIdx.getD i none = some o ∧ j.lowIdx.getD l [] = [o]
+  low_none : ∀ l, pmInv l = none → j.lowIdx.getD l [] = []
+  pm_inj : ∀ l l' i, pmInv l = some i → pmInv l' = some i → l = l'
+
+/-- what a matched pair emits, with its labels -/
+def emitL (op : String) (bool : Bool) (lab : Labels) (lv xv : V) : Option (Labels × V) :=
+  let (value, keep) := elemBinop op lv xv
+  if bool then some (lab, ofBool keep) else if keep then some (lab, value) else none
+
+theorem emit_lookup (op : String) (bool : Bool) (o : Nat) (lv xv : V) (outs : List Labels) (lab : Labels)
+    (h : outs[o]? = some lab) :
+    (emit op bool o lv xv).bind (fun p => (outs[p.1]?).map fun s => (s, p.2)) = emitL op bool lab lv xv := by
+  unfold emit emitL
+  cases bool with
+  | true => simp [h]
+  | false =>
+    cases hk : (elemBinop op lv xv).2 with
+    | true => simp [hk, h]
+    | false => simp [hk]
+
+/-- the slot of output `o` after the first pass holds the value of the left-hand sample of the
+series that owns `o` -/
+theorem slot_of_output (j : Join) (hinj : ∀ i i' o, j.highIdx.getD i none = some o → j.highIdx.getD i' none = some o → i = i')
+    (lhs : IdVec V) (hl : (lhs.map (·.1)).Pairwise (· ≠ ·)) (i o : Nat) (hio : j.highIdx.getD i none = some o) :
+    slotValOf (lhs.filterMap fun x => (j.highIdx.getD x.1 none).map fun o => (o, x.2)) o
+      = (lhs.find? (fun z => z.1 == i)).map (·.2) := by
+  unfold slotValOf
+  have hfilter : ((lhs.filterMap fun x => (j.highIdx.getD x.1 none).map fun o => (o, x.2)).filter (·.1 == o))
+      = (lhs.filter fun z => z.1 == i).map fun x => (o, x.2) := by
+    rw [List.filter_filterMap, ← List.filterMap_eq_map, List.filterMap_filter]
+    apply fm_congr
+    intro x _
+    by_cases hx : x.1 = i
+    · subst hx
+      rw [hio]
+      simp
+    · have hb : (x.1 == i) = false := by simpa using hx
+      cases hox : j.highIdx.getD x.1 none with
+      | none => simp [hb]
+      | some o' =>
+        have hne : o' ≠ o := by
+          intro he; subst he
+          exact hx (hinj x.1 i o' hox hio)
+        simp [hb, hne]
+  rw [hfilter, filter_by_id lhs hl i]
+  cases lhs.find? (fun z => z.1 == i) <;> rfl
+
+/-- the engine's step, read through its output series: one probe per right-hand sample -/
+theorem engine_step_eq (op : String) (bool : Bool) (j : Join) (H : List Labels) (outL : Labels → Labels)
+    (pmInv : Nat → Option Nat) (hj : JTables j H outL pmInv) (lhs rhs : IdVec V)
+    (hl : (lhs.map (·.1)).Pairwise (· ≠ ·)) (hr : (rhs.map (·.1)).Pairwise (· ≠ ·)) :
+    (engVectorBinop op bool .oneToOne j lhs rhs).map (denote j.outputs)
+      = .ok (rhs.filterMap fun y => (pmInv y.1).bind fun i => (lhs.find? (fun z => z.1 == i)).bind fun x =>
+          emitL op bool (outL (H.getD x.1 [])) x.2 y.2) := by
+  unfold engVectorBinop
+  rw [lhsPass_eq j lhs (fun x _ y _ o h1 h2 => hj.hi_inj x.1 y.1 o h1 h2) hl]
+  simp only
+  have hone : ∀ y ∈ rhs, (j.lowIdx.getD y.1 []).length ≤ 1 := by
+    intro y _
+    cases hp : pmInv y.1 with
+    | none => rw [hj.low_none y.1 hp]; simp
+    | some i => obtain ⟨o, _, ho⟩ := hj.low_some y.1 i hp; rw [ho]; simp
+  have hinj : ∀ y ∈ rhs, ∀ y' ∈ rhs, ∀ o, o ∈ j.lowIdx.getD y.1 [] → o ∈ j.lowIdx.getD y'.1 [] → y.1 = y'.1 := by
+    intro y _ y' _ o h1 h2
+    cases hp : pmInv y.1 with
+    | none => rw [hj.low_none y.1 hp] at h1; cases h1
+    | some i =>
+      cases hp' : pmInv y'.1 with
+      | none => rw [hj.low_none y'.1 hp'] at h2; cases h2
+      | some i' =>
+        obtain ⟨o1, hh1, hl1⟩ := hj.low_some y.1 i hp
+        obtain ⟨o2, hh2, hl2⟩ := hj.low_some y'.1 i' hp'
+        rw [hl1] at h1; rw [hl2] at h2
+        simp only [List.mem_singleton] at h1 h2
+        subst h1; subst h2
+        have hii : i = i' := hj.hi_inj i i' o hh1 hh2
+        subst hii
+        exact hj.pm_inj y.1 y'.1 i hp hp'
+  rw [rhsPass_eq op bool j _ rhs hone hinj hr]
+  simp only [Except.map]
+  congr 1
+  unfold denote
+  rw [List.filterMap_filterMap]
+  apply fm_congr
+  intro y _
+  unfold probe
+  cases hp : pmInv y.1 with
+  | none => rw [hj.low_none y.1 hp]; rfl
+  | some i =>
+    obtain ⟨o, hio, hlow⟩ := hj.low_some y.1 i hp
+    rw [hlow]
+    simp only [Option.bind_some]
+    rw [slot_of_output j hj.hi_inj lhs hl i o hio]
+    cases hf : lhs.find? (fun z => z.1 == i) with
+    | none => rfl
+    | some x =>
+      obtain ⟨_, hxi⟩ := find_by_id_mem lhs i x hf
+      simp only [Option.map_some, Option.bind_some]
+      have hlt := hj.hi_lt i o hio
+      have hget : j.outputs[o]? = some (outL (H.getD x.1 [])) := by
+        rw [hxi, ← hj.out_lab i o hio, List.getD_eq_getElem?_getD, List.getElem?_eq_getElem hlt]
+        rfl
+      exact emit_lookup op bool o x.2 y.2 j.outputs _ hget
+
+/-! ### the reference over the denoted vectors, in the same shape -/
+
+theorem find_congr' {α : Type} (p q : α → Bool) (l : List α) (h : ∀ a ∈ l, p a = q a) : l.find? p = l.find? q := by
+  induction l with
+  | nil => rfl
+  | cons a l ih =>
+    simp only [List.find?_cons]
+    rw [h a List.mem_cons_self, ih (fun b hb => h b (List.mem_cons_of_mem _ hb))]
+
+theorem find_map {α β : Type} (f : α → β) (p : β → Bool) (l : List α) :
+    (l.map f).find? p = (l.find? (fun a => p (f a))).map f := by
+  induction l with
+  | nil => rfl
+  | cons a l ih =>
+    simp only [List.map_cons, List.find?_cons]
+    cases p (f a) <;> simp [ih]
+
+/-- partners by match key: `pm` for left-hand series ids, over series lists whose keys are unique -/
+structure Partners (key : Labels → Labels) (H Lw : List Labels) (pm pmInv : Nat → Option Nat) : Prop where
+  iff : ∀ i l, pm i = some l ↔ pmInv l = some i
+  key_eq : ∀ i l, pm i = some l → key (H.getD i []) = key (Lw.getD l []) ∧ i < H.length ∧ l < Lw.length
+  complete : ∀ i l, i < H.length → l < Lw.length → key (H.getD i []) = key (Lw.getD l []) → pm i = some l
+
+/-- the right-hand sample with the key of left-hand series `i` is the sample of `i`'s partner -/
+theorem find_partner (key : Labels → Labels) (H Lw : List Labels) (pm pmInv : Nat → Option Nat)
+    (hp : Partners key H Lw pm pmInv) (rhs : IdVec V) (hrv : ∀ y ∈ rhs, y.1 < Lw.length) (i : Nat) (hi : i < H.length) :
+    rhs.find? (fun y => key (Lw.getD y.1 []) == key (H.getD i []))
+      = (pm i).bind fun l => rhs.find? (fun z => z.1 == l) := by
+  cases hpm : pm i with
+  | none =>
+    simp only [Option.bind_none]
+    rw [List.find?_eq_none]
+    intro y hy
+    simp only [beq_iff_eq]
+    intro hk
+    have := hp.complete i y.1 hi (hrv y hy) hk.symm
+    rw [hpm] at this; cases this
+  | some l =>
+    simp only [Option.bind_some]
+    apply find_congr'
+    intro y hy
+    have hkl := (hp.key_eq i l hpm).1
+    by_cases hyl : y.1 = l
+    · have hb : (y.1 == l) = true := by simpa using hyl
+      rw [hb, hyl, hkl]
+      exact beq_self_eq_true _
+    · have hb : (y.1 == l) = false := by simpa using hyl
+      rw [hb]
+      simp only [beq_eq_false_iff_ne, ne_eq]
+      intro hk
+      have := hp.complete i y.1 hi (hrv y hy) hk.symm
+      rw [hpm] at this
+      exact hyl (Option.some.inj this).symm
+
+/-- the reference's step over the two denoted vectors: one output per left-hand sample with a
+partner sample -/
+theorem reference_step_eq (op : String) (bool : Bool) (m : Matching) (hc : m.card = .oneToOne)
+    (H Lw : List Labels) (pm pmInv : Nat → Option Nat) (hp : Partners (sigLabels m) H Lw pm pmInv)
+    (hH : ∀ i i', i < H.length → i' < H.length → sigLabels m (H.getD i []) = sigLabels m (H.getD i' []) → i = i')
+    (hL : ∀ l l', l < Lw.length → l' < Lw.length → sigLabels m (Lw.getD l []) = sigLabels m (Lw.getD l' []) → l = l')
+    (lhs rhs : IdVec V) (hlv : ∀ x ∈ lhs, x.1 < H.length) (hrv : ∀ y ∈ rhs, y.1 < Lw.length)
+    (hl : (lhs.map (·.1)).Pairwise (· ≠ ·)) (hr : (rhs.map (·.1)).Pairwise (· ≠ ·)) :
+    vectorBinop op bool m (denote H lhs) (denote Lw rhs)
+      = .ok (lhs.filterMap fun x => (pm x.1).bind fun l => (rhs.find? (fun z => z.1 == l)).bind fun y =>
+          let (value, keep) := elemBinop op x.2 y.2
+          if !bool && !keep then none
+          else some (resultMetric op bool m (H.getD x.1 []) (Lw.getD y.1 []), if bool then ofBool keep else value)) := by
+  rw [denote_eq_map_of_valid H lhs hlv, denote_eq_map_of_valid Lw rhs hrv]
+  have hnodup : ∀ (S : List Labels) (xs : IdVec V), (∀ x ∈ xs, x.1 < S.length) →
+      (∀ i i', i < S.length → i' < S.length → sigLabels m (S.getD i []) = sigLabels m (S.getD i' []) → i = i') →
+      (xs.map (·.1)).Pairwise (· ≠ ·) →
+      ((xs.map fun x => (lab S x, x.2)).map fun x => sigLabels m x.1).Nodup := by
+    intro S xs hv hS hids
+    rw [List.map_map]
+    induction xs with
+    | nil => exact List.nodup_nil
+    | cons a as ih =>
+      simp only [List.map_cons, List.pairwise_cons] at hids
+      simp only [List.map_cons]
+      refine List.nodup_cons.mpr ⟨?_, ih (fun x hx => hv x (List.mem_cons_of_mem _ hx)) hids.2⟩
+      intro hmem
+      obtain ⟨z, hz, hzk⟩ := List.mem_map.mp hmem
+      simp only [Function.comp_def, lab] at hzk
+      have := hS z.1 a.1 (hv z (List.mem_cons_of_mem _ hz)) (hv a List.mem_cons_self) hzk
+      exact hids.1 z.1 (List.mem_map_of_mem hz) this.symm
+  rw [vectorBinop_unique op bool m hc _ _ (hnodup H lhs hlv hH hl) (hnodup Lw rhs hrv hL hr)]
+  congr 1
+  rw [List.filterMap_map]
+  apply fm_congr
+  intro x hx
+  simp only [Function.comp_def, refPair, lab]
+  rw [find_map (fun y : Nat × V => (Lw.getD y.1 [], y.2)) (fun r => sigLabels m r.1 == sigLabels m (H.getD x.1 [])) rhs]
+  simp only
+  rw [find_partner (sigLabels m) H Lw pm pmInv hp rhs hrv x.1 (hlv x hx)]
+  cases hpm : pm x.1 with
+  | none => rfl
+  | some l =>
+    simp only [Option.bind_some]
+    cases rhs.find? (fun z => z.1 == l) <;> rfl
+
+/-- **one step of the engine's vector-to-vector operator against the reference**: one-to-one
+matching, pairwise distinct match keys on both sides, join tables as `JTables` describes them and
+output labels that are the reference's result metric: the engine reports no error, neither does the
+reference, and the engine's step vector read through its output series is the reference's result
+up to order -/
+theorem step_agrees (op : String) (bool : Bool) (m : Matching) (hc : m.card = .oneToOne) (j : Join)
+    (H Lw : List Labels) (outL : Labels → Labels) (pm pmInv : Nat → Option Nat)
+    (hj : JTables j H outL pmInv) (hp : Partners (sigLabels m) H Lw pm pmInv)
+    (hlab : ∀ h lw, outL h = resultMetric op bool m h lw)
+    (hH : ∀ i i', i < H.length → i' < H.length → sigLabels m (H.getD i []) = sigLabels m (H.getD i' []) → i = i')
+    (hL : ∀ l l', l < Lw.length → l' < Lw.length → sigLabels m (Lw.getD l []) = sigLabels m (Lw.getD l' []) → l = l')
+    (lhs rhs : IdVec V) (hlv : ∀ x ∈ lhs, x.1 < H.length) (hrv : ∀ y ∈ rhs, y.1 < Lw.length)
+    (hl : (lhs.map (·.1)).Pairwise (· ≠ ·)) (hr : (rhs.map (·.1)).Pairwise (· ≠ ·)) :
+    ∃ eng ref, (engVectorBinop op bool .oneToOne j lhs rhs).map (denote j.outputs) = .ok eng ∧
+      vectorBinop op bool m (denote H lhs) (denote Lw rhs) = .ok ref ∧ eng.Perm ref := by
+  refine ⟨_, _, engine_step_eq op bool j H outL pmInv hj lhs rhs hl hr,
+    reference_step_eq op bool m hc H Lw pm pmInv hp hH hL lhs rhs hlv hrv hl hr, ?_⟩
+  have hperm := matched_perm pm pmInv hp.iff lhs rhs hl hr (fun x y =>
+    let (value, keep) := elemBinop op x.2 y.2
+    if !bool && !keep then none
+    else some (resultMetric op bool m (H.getD x.1 []) (Lw.getD y.1 []), if bool then ofBool keep else value))
+  refine List.Perm.trans (List.Perm.of_eq ?_) hperm.symm
+  apply fm_congr
+  intro y _
+  cases pmInv y.1 with
+  | none => rfl
+  | some i =>
+    simp only [Option.bind_some]
+    cases lhs.find? (fun z => z.1 == i) with
+    | none => rfl
+    | some x =>
+      simp only [Option.bind_some, emitL, hlab (H.getD x.1 []) (Lw.getD y.1 [])]
+      cases bool with
+      | true => simp
+      | false =>
+        cases hk : (elemBinop op x.2 y.2).2 with
+        | true => simp [hk]
+        | false => simp [hk]
+
 end PromqlVerif
